@@ -261,7 +261,9 @@ class C06(Check):
             cases.append(gen.case_sweep(cid, directed, assort, K, recs, L, wt, net.N, u, v, w))
             meta[cid] = (directed, assort, K, recs, L, wt, net, u, v, w)
             self.dist("state:%s%s" % ("D" if directed else "U", "A" if assort else "G"))
-        io, mo = self.correspond("lik", cases, keys=["lik0", "lik1"])
+        # lik0 = the likelihood function on the given state (C06's subject); lik1 (after one sweep) would drag the update
+        # functions in, which are C02's subject
+        io, mo = self.correspond("lik", cases, keys=["lik0"])
         for cid, (directed, assort, K, recs, L, wt, net, u, v, w) in meta.items():
             o = io.get(cid)
             if not o or "lik0" not in o:
